@@ -26,9 +26,14 @@ Inductive wf_edge (ds : defs) : nat -> nat -> nat -> Prop :=
     In t (d_fields (def_of ds tid)) -> ty_use t = Some (tid', args) -> wf_edge ds tid' x y ->
     nth_error args x = Some (Lt u) -> nth_error args y = Some (Lt v) -> wf_edge ds tid u v.
 
+(* the bounds a signature writes down or implies through its reference types; unlike Model.m_ops (what the tool records)
+   this does not depend on whether a type is written by name or as `Self` *)
+Definition spec_ops (m : msig) : list op :=
+  decl_ops (m_decl m) ++ flat_map (ref_ops (m_n m)) (m_params m ++ m_ret m).
+
 Inductive rust_edge (ds : defs) (m : msig) : nat -> nat -> Prop :=
 | re_own u v :
-    In (u, v) (constraints (m_ops m)) -> rust_edge ds m u v
+    In (u, v) (constraints (spec_ops m)) -> rust_edge ds m u v
 | re_use t tid args x y u v :
     In t (m_params m ++ m_ret m) -> ty_use t = Some (tid, args) -> wf_edge ds tid x y ->
     nth_error args x = Some (Lt u) -> nth_error args y = Some (Lt v) -> rust_edge ds m u v.
@@ -40,8 +45,8 @@ Definition spec_edge (ds : defs) (m : msig) (r : nat) (e : edge) : Prop :=
   match e with
   | EStruct p slot opt => exists tid args u,
       nth_error (m_params m) p = Some (TStruct opt tid args) /\ nth_error args slot = Some (Lt u) /\ outlives ds m r u
-  | EOpaque p => exists opt b tid args u,
-      nth_error (m_params m) p = Some (TOpaque opt b tid args) /\ In (Lt u) (args ++ opt_list b) /\ outlives ds m r u
+  | EOpaque p => exists sp opt b tid args u,
+      nth_error (m_params m) p = Some (TOpaque sp opt b tid args) /\ In (Lt u) (args ++ opt_list b) /\ outlives ds m r u
   | ESlice p => exists opt b u,
       nth_error (m_params m) p = Some (TSlice opt b) /\ In (Lt u) (opt_list b) /\ outlives ds m r u
   | EPanic _ => False
